@@ -91,11 +91,11 @@ class Check(PropertyCheck):
                 mode = {'mode': 'exact'}
             else:
                 mode = {'mode': rng.choice(['bogus', 'subpixels']), 'n': 2.5, 'n_is_int': False}
-            cases.append({'kind': d['kind'], 'region': d, 'mode': mode})
+            cases.append(G.add_history(rng, {'kind': d['kind'], 'region': d, 'mode': mode}))
         return cases
 
     def real(self, case):
-        reg = G.build(case['region'])
+        reg = G.build_case(case)
         md = case['mode']
         kw = {'mode': md['mode']}
         if 'n' in md:
@@ -123,7 +123,7 @@ class Check(PropertyCheck):
                 'data': [[cell(v) for v in row] for row in np.asarray(m.data, dtype=float).tolist()]}
 
     def requests(self, case):
-        reg = G.build(case['region'])
+        reg = G.build_case(case)
         md = case['mode']
         r = {'op': 'region.mask', 'region': G.model(case['region'], reg), 'mode': md['mode']}
         if md['mode'] == 'subpixels':
